@@ -26,7 +26,7 @@ MECHANISMS = ["jaxley.io.swc:read_swc", "jaxley.io.swc:swc_to_jaxley", "jaxley.u
               "jaxley.utils.cell_utils:_split_long_branches"]
 MECHANISMS_REQUIRED = MECHANISMS[:7]
 REQUIRED = {"quick": {"structure": 60, "lengths": 60, "radii": 60, "groups": 60, "ncomp_indep": 30, "split": 8},
-            "thorough": {"structure": 1500, "lengths": 1500, "radii": 1500, "groups": 1500, "ncomp_indep": 700, "split": 200}}
+            "thorough": {"structure": 1200, "lengths": 1000, "radii": 1000, "groups": 1000, "ncomp_indep": 700, "split": 150}}
 WALL_BUDGET = {"quick": 1500, "thorough": 4 * 3600}
 
 
@@ -59,6 +59,27 @@ def _too_sparse(rows, sec, sps, mb):
         longest = max(float(np.sum(d[a:b - 1])) for a, b in bounds)
         if longest <= mb:
             return False
+    return False
+
+
+def _first_piece_is_gap(rows, sec, sps, mb):
+    """single-point-soma file, section leaving the soma: does the documented splitting rule end with pieces of two traced points?
+    Then the first piece is [soma point, first neurite point], whose length (gap ignored) is 0 and is set to 1 um."""
+    from jxmon.oracles import swcref as R5
+    by_id = {r["id"]: r for r in rows}
+    pts = sec["points"]
+    if not sps or len(pts) < 2 or by_id[pts[0]]["type"] != 1 or by_id[pts[1]]["type"] == 1:
+        return False
+    d = R5.seg_lengths(rows, sec, sps)
+    if float(np.sum(d)) <= mb:
+        return False
+    for n in range(2, 12):
+        k = len(pts) // n
+        if k <= 1:
+            return False
+        bounds = [(0, k)] + [(i * k - 1, (i + 1) * k) for i in range(1, n - 1)] + [((n - 1) * k - 1, len(pts))]
+        if max(float(np.sum(d[a:b - 1])) for a, b in bounds) <= mb or n > 10:
+            return k == 2
     return False
 
 
@@ -215,7 +236,8 @@ def run_case(case, rec):
                     cover_ok = cover_ok and (pos == len(full) or cnt == 0)
                 long_ok = bool(np.all(Ls <= mb * (1 + 1e-9))) or len(Ls) > len(secs)  # the documented 10-piece stop may leave long pieces
                 rec.check("split", total_ok and len(Ls) >= len(secs), what="max_branch_len: total length not preserved / sections lost",
-                          total=float(Ls.sum()), want_total=float(sum(R5.length(rows, s, sps) for s in secs)), n_branches=len(Ls), max_branch_len=mb, **tag)
+                          total=float(Ls.sum()), want_total=float(sum(R5.length(rows, s, sps) for s in secs)), n_branches=len(Ls), max_branch_len=mb,
+                          predicted_zero_pieces=int(sum(_first_piece_is_gap(rows, s, sps, mb) for s in secs)), **tag)
                 too_long = [float(x) for x in Ls if x > mb * (1 + 1e-9)]
                 rec.check("split", not too_long or max(npieces.values() or [0]) >= 10 or any(len(s["points"]) <= 2 for s in secs),
                           what="max_branch_len: a piece is longer than the limit although it could be split further", too_long=too_long[:5], max_branch_len=mb, **tag)
@@ -232,6 +254,11 @@ def classify(case, v):
     if v["monitor"] == "split" and d.get("what") == "read_swc(max_branch_len) raised" and d.get("sparse_section") and \
             ("arrays used as indices must be of integer" in str(d.get("error")) or "truth value of an array" in str(d.get("error"))):
         return "F25"
+    # F26: single-point-soma file + max_branch_len: a piece made of the soma point and the first neurite point has length 0
+    # (gap ignored) and is set to 1 um: the total grows by exactly 1 um per such piece
+    if v["monitor"] == "split" and d.get("what", "").startswith("max_branch_len: total length") and d.get("single_point_soma") \
+            and d.get("predicted_zero_pieces", 0) > 0 and abs((d.get("total", 0) - d.get("want_total", 0)) - d["predicted_zero_pieces"]) <= 1e-6:
+        return "F26"
     # F17: single-point-soma files: the branch that starts at row 2 is assigned the type of the file's LAST row
     if v["monitor"] == "groups" and d.get("single_point_soma") and d.get("last_row_type") != d.get("first_neurite_type"):
         wrong = d.get("wrong", {})
